@@ -1437,6 +1437,26 @@ pub fn plan(prop: Prop, tier: &str, seed: u64) -> Result<Plan, String> {
         });
         id += 1;
     }
+    // a position with an en passant square may come with any fifty-move counter (an editor, a
+    // GUI that keeps its own counter): every such seed is also walked with a counter of 3 and 57
+    for fen in &seeds {
+        let Ok(mut p) = Pos::from_fen(fen) else { continue };
+        if p.ep < 0 || p.half != 0 {
+            continue;
+        }
+        for half in [3u32, 57] {
+            p.half = half;
+            jobs.push(Job {
+                id,
+                fen: p.fen(),
+                kind: JobKind::Walk {
+                    depth: 2,
+                    budget: walk_budget / 8,
+                },
+            });
+            id += 1;
+        }
+    }
     let mut rng = Rng::derive(seed, 0xB0A2D);
     for gidx in 0..n_games {
         let fen = match rng.below(11) {
